@@ -169,8 +169,8 @@ Definition spec_collect (ps : list nat) (limit : option Z) (l : list row) : list
 Inductive rback :=
 | RList (l : list row)
 | RSelect (idx : list nat)     (* _inner_projection(): for tup in self._rows: yield tuple(tup[i] for i in idx) *)
-| RFilter (mask : list bool)   (* (t for t, m in zip(self._rows, mask) if m) *)
-| RTake (idx : list Z).        (* (m for i, m in enumerate(self._rows) if i in indexes) *)
+| RFilter (mask : list bool)   (* _inner_filter(): for t, m in zip(self._rows, mask): if m: yield t   (since 75a1e72; a generator expression before) *)
+| RTake (idx : list Z).        (* _inner_take(): for i, m in enumerate(self._rows): if i in indexes: yield m *)
 Record res := mkR { rsch : schema; rb : rback }.
 
 (* slice(): materialize; offset < 0 -> max(0, len + offset); three return statements *)
